@@ -165,6 +165,12 @@ def mutate_doc(rng, doc):
     return doc, "%s@%s" % (kind, "/".join(map(str, path)))
 
 
+# documents that cannot work and have to be rejected (a value that can never be found again in the data file)
+MUST_REJECT = {
+    "nan as parallel_interference_factor": "runs: {parallel_interference_factor: .nan}\nexecutors: {E: {executable: x}}\nbenchmark_suites: {S: {gauge_adapter: Time, command: c, benchmarks: [B]}}\nexperiments: {X: {executions: [E], suites: [S]}}\n",
+    "nan in a variable list": "executors: {E: {executable: x}}\nbenchmark_suites: {S: {gauge_adapter: Time, command: c, variable_values: [1, .nan], benchmarks: [B]}}\nexperiments: {X: {executions: [E], suites: [S]}}\n",
+    "nan as an input size of a benchmark": "executors: {E: {executable: x}}\nbenchmark_suites: {S: {gauge_adapter: Time, command: c, benchmarks: [{B: {input_sizes: [.NaN]}}]}}\nexperiments: {X: {executions: [E], suites: [S]}}\n",
+}
 RAW_DOCS = {
     "empty": "", "null": "null\n", "list root": "- a\n- b\n", "scalar root": "hello\n", "int root": "5\n",
     "bad yaml": "a: [1, 2\n", "bad yaml, flow map": "foo: {bar\n", "bad yaml, closing brace": "a: }\n",
@@ -266,7 +272,7 @@ def run(chk):
     os.makedirs(d, exist_ok=True)
     base = yaml.safe_load(VALID_DOC)
     ndocs = 250 if tier == "quick" else 4000
-    docs = [("raw:" + k, v) for k, v in RAW_DOCS.items()]
+    docs = [("raw:" + k, v) for k, v in RAW_DOCS.items()] + [("must-reject:" + k, v) for k, v in MUST_REJECT.items()]
     docs.append(("valid", VALID_DOC))
     # names that YAML reads as numbers, booleans or null - as experiment, executor, suite, benchmark and machine names
     for odd in ["2024", "1.5", "yes", "~", "0x1F", "1e3", "on", "'S{x}'", "'{0}'", "'%(x)s'", "'a}b'"]:
@@ -334,6 +340,9 @@ def run(chk):
                 chk.violation("C19 configuration problems exit with status 3", case, "0 or 3", rc)
             elif rc == 3 and not out.strip():
                 chk.violation("C19 rejected with a diagnostic message", case, "a message", "no output")
+            if label.startswith("must-reject:") and rc != 3 and not isinstance(rc, str):
+                chk.violation("C19 a configuration whose runs could never be found again in the data file (nan as an identifying value) is "
+                              "rejected with a diagnostic", case, 3, rc)
             if (label == "valid" or label.startswith("valid-shared:")) and rc != 0:
                 chk.violation("C19 a valid and complete configuration is accepted (also when anchors share parts of it)", case, 0, (rc, out[-400:]))
             chk.case(("d", label, text), nontrivial=True, sample=dict(mutation=label, exit=rc) if i in (0, 30) else None)
